@@ -150,6 +150,54 @@ Definition wrap_body (loc : bool) (d : nat) (run : mstate -> ctl * mstate) (m : 
   | _ => (r, if loc then pop m3 else m3)      (* scope end of the body: also emitted before break / continue *)
   end.
 
+(* one statement; [rec d' ss] runs a nested block at loop depth d' *)
+Definition exec_stmt (rec : nat -> list stmt -> mstate -> ctl * mstate) (k : nat) (loc : bool) (d : nat)
+  (s : stmt) (m : mstate) : ctl * mstate :=
+  match s with
+  | SPrintVar v => (CNormal, m_print m (line_of (get_var loc m v)))
+  | SPrintLit z => (CNormal, m_print m (num_text z))
+  | SFor e body =>
+    let m1 := push (marker m) (LVal VNil) in
+    let '(id, m2) := eval_iter e m1 in
+    let m3 := push m2 (LIter id) in
+    let m4 := m_cnts m3 (upd (cnts m3) d 0) in
+    let '(c, m5) := for_rounds next_hidden set_loopvar (wrap_body loc d (rec (S d) body)) k m4 in
+    match c with
+    | CReturn | CFuel => (c, m5)
+    | _ => (CNormal, marker (pop (pop m5)))
+    end
+  | SIf v n body => if Nat.eqb (nth v (cnts m) 0) n then rec d body m else (CNormal, m)
+  | SBreak => (CBreak, m)
+  | SContinue => (CContinue, m)
+  | SReturn => (CReturn, m)
+  | SLet n e => let '(id, m1) := eval_iter e m in (CNormal, m_slots m1 (upd (slots m1) n id))
+  | SNext n =>
+    match m_next (nth n (slots m) 0) m with
+    | None => (CFuel, m)
+    | Some (v, m1) => (CNormal, m_print m1 (line_of v))
+    end
+  | SPush n v =>
+    let vid := nth n (wvars m) 0 in
+    (CNormal, m_store m (set_vec (ms m) vid (get_vec (ms m) vid ++ [v])))
+  | SPop n =>
+    let vid := nth n (wvars m) 0 in
+    (CNormal, m_store m (set_vec (ms m) vid (removelast (get_vec (ms m) vid))))
+  | SSetVec n xs =>
+    let '(vid, s) := alloc_vec (ms m) xs in (CNormal, m_wvars (m_store m s) (upd (wvars m) n vid))
+  | SCollect e =>
+    let '(id, m1) := eval_iter e m in
+    match collect_loop k OFUEL (ms m1) id with
+    | (CNormal, (acc, _, s)) => (CNormal, m_print (m_store m1 s) (line_of_vec acc))
+    | (_, (_, _, s)) => (CFuel, m_store m1 s)
+    end
+  | SReduce g init e =>
+    let '(id, m1) := eval_iter e m in
+    match fold_loop k OFUEL (apply_rd g) init (ms m1) id with
+    | (CNormal, (acc, _, s)) => (CNormal, m_print (m_store m1 s) (line_of acc))
+    | (_, (_, _, s)) => (CFuel, m_store m1 s)
+    end
+  end.
+
 Fixpoint exec (fuel : nat) (loc : bool) (d : nat) (ss : list stmt) (m : mstate) : ctl * mstate :=
   match fuel with
   | O => (CFuel, m)
@@ -157,52 +205,7 @@ Fixpoint exec (fuel : nat) (loc : bool) (d : nat) (ss : list stmt) (m : mstate) 
     match ss with
     | [] => (CNormal, m)
     | s :: rest =>
-      let r : ctl * mstate :=
-        match s with
-        | SPrintVar v => (CNormal, m_print m (line_of (get_var loc m v)))
-        | SPrintLit z => (CNormal, m_print m (num_text z))
-        | SFor e body =>
-          let m1 := push (marker m) (LVal VNil) in
-          let '(id, m2) := eval_iter e m1 in
-          let m3 := push m2 (LIter id) in
-          let m4 := m_cnts m3 (upd (cnts m3) d 0) in
-          let '(c, m5) := for_rounds next_hidden set_loopvar (wrap_body loc d (exec k loc (S d) body)) k m4 in
-          match c with
-          | CReturn | CFuel => (c, m5)
-          | _ => (CNormal, marker (pop (pop m5)))
-          end
-        | SIf v n body => if Nat.eqb (nth v (cnts m) 0) n then exec k loc d body m else (CNormal, m)
-        | SBreak => (CBreak, m)
-        | SContinue => (CContinue, m)
-        | SReturn => (CReturn, m)
-        | SLet n e => let '(id, m1) := eval_iter e m in (CNormal, m_slots m1 (upd (slots m1) n id))
-        | SNext n =>
-          match m_next (nth n (slots m) 0) m with
-          | None => (CFuel, m)
-          | Some (v, m1) => (CNormal, m_print m1 (line_of v))
-          end
-        | SPush n v =>
-          let vid := nth n (wvars m) 0 in
-          (CNormal, m_store m (set_vec (ms m) vid (get_vec (ms m) vid ++ [v])))
-        | SPop n =>
-          let vid := nth n (wvars m) 0 in
-          (CNormal, m_store m (set_vec (ms m) vid (removelast (get_vec (ms m) vid))))
-        | SSetVec n xs =>
-          let '(vid, s) := alloc_vec (ms m) xs in (CNormal, m_wvars (m_store m s) (upd (wvars m) n vid))
-        | SCollect e =>
-          let '(id, m1) := eval_iter e m in
-          match collect_loop k OFUEL (ms m1) id with
-          | (CNormal, (acc, _, s)) => (CNormal, m_print (m_store m1 s) (line_of_vec acc))
-          | (_, (_, _, s)) => (CFuel, m_store m1 s)
-          end
-        | SReduce g init e =>
-          let '(id, m1) := eval_iter e m in
-          match fold_loop k OFUEL (apply_rd g) init (ms m1) id with
-          | (CNormal, (acc, _, s)) => (CNormal, m_print (m_store m1 s) (line_of acc))
-          | (_, (_, _, s)) => (CFuel, m_store m1 s)
-          end
-        end in
-      match r with
+      match exec_stmt (exec k loc) k loc d s m with
       | (CNormal, m') => exec k loc d rest m'
       | other => other
       end
